@@ -320,6 +320,23 @@ func workerMain(t *testing.T) {
 		sc := GenScenario(p, spec.Tier, spec.Seed, i)
 		dump := os.Getenv("VERIF_DUMPLOGS")
 		out := execute(t, sc, true) // the event log of every run is kept until the run is judged (diagnosis of a violation that does not reproduce)
+		// transient real-time artefacts of the one kernel-backed step (see sim.RealTimeDialTimeout): the
+		// scenario is executed again; what persists over the re-executions is the scenario's own behaviour
+		if sc.Mode != "free" && (out.RealTimeDialTimeout() || (out.LeftoverConns() && callFailed(out))) {
+			first := out.LogHash
+			for again := 0; again < 3; again++ {
+				res.Stats["real-time-suspect.re-executed"]++
+				out = execute(t, GenScenario(p, spec.Tier, spec.Seed, i), true)
+				if !out.RealTimeDialTimeout() && out.LogHash != first {
+					break
+				}
+			}
+		}
+		if out.RealTimeDialTimeout() {
+			res.Runs++
+			res.Inconclusive["real-time-dial-timeout"]++
+			continue
+		}
 		if dump != "" && out.W != nil {
 			os.MkdirAll(dump, 0o755)
 			os.WriteFile(fmt.Sprintf("%s/%d-%d.log", dump, os.Getpid(), i), []byte(strings.Join(out.W.Log.Lines, "\n")+"\n"), 0o644)
@@ -429,6 +446,15 @@ func workerMain(t *testing.T) {
 func vkey(v props.Violation) string {
 	b, _ := json.Marshal(v.Facts)
 	return v.Rule + string(b)
+}
+
+func callFailed(out *sim.Outcome) bool {
+	for _, c := range out.W.Calls {
+		if c.Err != nil || (c.C.Entry == "http_handler" && c.HTTPStatus != 200) {
+			return true
+		}
+	}
+	return false
 }
 
 // reproduces re-executes the scenario and reports whether the same rule family fires again.
